@@ -398,6 +398,7 @@ struct Sched
     int low_prio = 0;
     uint32_t change_points[8];
     int n_change = 0;
+    int64_t busy_adv_total = 0;
 };
 Sched *S = nullptr;
 
@@ -519,6 +520,7 @@ int pick()
                     if (d > 20 * MS)
                         d = 20 * MS;
                     g_mono += d;
+                    S->busy_adv_total += d;
                     for (int k = 0; k < nR; k++)
                         S->t[R[k]].starved_ns += d;
                     count(C_TIME_ADV_BUSY);
@@ -582,12 +584,17 @@ int pick()
                 int64_t d = dmin - g_mono;
                 if (d > 20 * MS)
                     d = 20 * MS;
-                bool ok = true;
+                // Time that passes while threads are runnable models preemption delays, not work: in total
+                // it stays below one second per run, so that it can reorder short sleeps and polls but can
+                // never by itself expire a multi-second last-resort time-out against a thread that is
+                // making progress (handlers that really take seconds say so with explicit sleeps)
+                bool ok = S->busy_adv_total + d <= 1 * SEC;
                 for (int k = 0; k < nR; k++)
                     if (S->t[R[k]].starved_ns + d > 500 * MS)
                         ok = false;
                 if (ok) {
                     g_mono += d;
+                    S->busy_adv_total += d;
                     for (int k = 0; k < nR; k++)
                         S->t[R[k]].starved_ns += d;
                     count(C_TIME_ADV_BUSY);
@@ -891,6 +898,7 @@ void begin(const SchedConfig &cfg)
     S->rr_left = 0;
     S->low_prio = 0;
     S->n_change = 0;
+    S->busy_adv_total = 0;
     g_clock_reads = 0;
     if (cfg.strategy == S_PCT) {
         S->n_change = cfg.pct_depth > 8 ? 8 : cfg.pct_depth;
